@@ -15,7 +15,7 @@ class C08(SessionProp):
     id = "C08"
     prop_file = "Props/C08"
     rule = (
-        "seeded histories (1-14 calls) of client and server sessions: every request/response method with ids drawn "
+        "corpus of 300-cycle histories and >64 KiB queues (1% of the seeded ones too); seeded histories (1-14 calls) of client and server sessions, extended requests named with the notice OID, every RFC 4511 result code: every request/response method with ids drawn "
         "from outstanding / retired / never-issued / 0, unbind, drains, deliveries of well-formed, chunked, corrupted "
         "and random bytes, including calls after rejections and after closure; a trace monitor written from the "
         "documented state diagram judges the implementation's trace; non-trivial = 3+ calls"
@@ -27,7 +27,9 @@ class C08(SessionProp):
             {"role": 0, "calls": [[UNBIND], [C_BIND, b"a", [0, b"b"], []], [DRAIN, []]], "meta": [None] * 3},
             {"role": 1, "calls": [[UNBIND], [S_BINDRESP, 1, [], 0, b"", b"", []], [DRAIN, []]], "meta": [None] * 3},
             {"role": 1, "calls": [[S_EXTRESP, 5, [], [], 0, b"", b"", []], [DRAIN, []]], "meta": [None] * 2},
-        ]
+            # a request that merely carries the notice-of-disconnection OID is still a request while BINDING
+            {"role": 0, "calls": [[C_BIND, b"a", [1, b"GSSAPI", [b"x"]], []], [C_EXT, msgs.OID_NOTICE, [], []], [DRAIN, []]], "meta": [None] * 3},
+        ] + sessions.boundary_histories()
 
     def finding_key(self, c, what):
         # only the pinned behaviour: a server response refused for an unknown id on a BEFORE_OPEN session
